@@ -124,7 +124,9 @@ def h_step2(params, v0, v1, v2, v3, t, i, vk, j, w, w2, t2, i2, vk2):
   with untraced():
     viol = _step(params, op2, root, t2, i2, vk2, jj, 60, 50, 'step2')
     if viol is not None:
-      viol.sig = f'after:{params["op"]}:' + viol.sig
+      # the tree satisfied the invariant after the first step: the violation belongs to the second operation alone
+      # (same signature as the one-step harness; the history goes into the detail)
+      viol.detail = f'after {params["op"]}: ' + str(viol.detail)
     return viol
 
 
